@@ -204,20 +204,30 @@ func (s *handler) handleReader(ctx context.Context, r io.Reader, w io.Writer, rp
 			return
 		}
 
-		_, _ = w.Write([]byte("[")) // todo consider handling this error
-		for idx, req := range reqs {
-			if req.ID, err = normalizeID(req.ID); err != nil {
-				rpcError(wf, &req, rpcParseError, xerrors.Errorf("failed to parse ID: %w", err))
-				return
-			}
-
-			s.handle(ctx, req, wf, rpcError, func(bool) {}, nil)
-
-			if idx != len(reqs)-1 {
+		// The array framing is written lazily, right before an element's output:
+		// requests which produce no output (notifications) must not leave a
+		// dangling separator, and a batch of only notifications gets no reply.
+		wroteElem := false
+		bwf := func(cb func(io.Writer)) {
+			if wroteElem {
 				_, _ = w.Write([]byte(",")) // todo consider handling this error
+			} else {
+				_, _ = w.Write([]byte("[")) // todo consider handling this error
 			}
+			wroteElem = true
+			cb(w)
 		}
-		_, _ = w.Write([]byte("]")) // todo consider handling this error
+		for _, req := range reqs {
+			if req.ID, err = normalizeID(req.ID); err != nil {
+				rpcError(bwf, &req, rpcParseError, xerrors.Errorf("failed to parse ID: %w", err))
+				continue
+			}
+
+			s.handle(ctx, req, bwf, rpcError, func(bool) {}, nil)
+		}
+		if wroteElem {
+			_, _ = w.Write([]byte("]")) // todo consider handling this error
+		}
 	} else {
 		var req request
 		if err := json.NewDecoder(bufferedRequest).Decode(&req); err != nil {
